@@ -1181,13 +1181,17 @@ class Parser:
         self.struct_defs[name] = obj
 
     def check_name(self, name: str):
-        """Check that names start with a letter."""
+        """Check that names are identifiers that start with a letter.
+
+        Names are written into the outputs as they are: MAX-N is no identifier in any of
+        the output languages (the C header would define a macro MAX).
+        """
         if name == "_RESERVED_":
             return
 
-        if not name.startswith(tuple(c for c in string.ascii_letters)):
+        if not isinstance(name, str) or re.fullmatch(r"[A-Za-z][A-Za-z0-9_]*", name) is None:
             raise RTMASyntaxError(
-                f"Invalid name {name} in {self.current_file}. Names can only start with letters"
+                f"Invalid name {name} in {self.current_file}. Names can only start with letters and contain letters, digits and underscores"
             )
 
     def check_generated_names(self):
